@@ -172,6 +172,69 @@ u.extract(M, 'fn cast_into_memory', key='cast_variant_to_enum',
         }
 ''')])
 
+# ---- the compound-assignment call site of write_all (Stmt::Assign in compile_stmt), lifted ----
+F = 'crates/codegen/src/compiler/functions.rs'
+u.raw('''
+// shims for the lifted call site: expression ids, the typing table and the callees that are
+// not under contract (ASSUMED contracts, listed in the evidence)
+#[derive(Clone, Copy)] pub struct ExprIdx(pub u32);
+pub struct AssignBody { pub dest: ExprIdx, pub value: ExprIdx }
+pub mod hir { #[derive(Clone, Copy)] pub struct BinaryOp(pub u8); }
+pub uninterp spec fn expr_ty(e: ExprIdx) -> Ty;
+pub uninterp spec fn spec_ty_max(a: Ty, b: Ty) -> Option<Ty>;
+pub struct FunctionCompiler { pub builder: FunctionBuilder, pub module: Module, pub ptr_ty: types::Type }
+impl FunctionCompiler {
+    #[verifier::external_body]
+    pub fn ty_of(&self, e: ExprIdx) -> (r: Intern<Ty>) ensures *r.0 == expr_ty(e) { unimplemented!() }
+    // ASSUMED: a binary operation yields a scalar of the common type of its operands and
+    // writes to no live value
+    #[verifier::external_body]
+    pub fn compile_binary(&mut self, lhs: ExprIdx, rhs: ExprIdx, op: hir::BinaryOp) -> (r: Option<Value>)
+        ensures
+            no_new_writes(old(self).builder, final(self).builder),
+            r is Some && spec_ty_max(expr_ty(lhs), expr_ty(rhs)) is Some
+                ==> den_bytes(r->0.den@) == tsize(spec_ty_max(expr_ty(lhs), expr_ty(rhs))->0),
+    { unimplemented!() }
+    // ASSUMED: a cast between non-aggregate types yields a scalar as wide as the target type
+    #[verifier::external_body]
+    pub fn cast(&mut self, val: Option<Value>, cast_from: Intern<Ty>, cast_to: Intern<Ty>) -> (r: Option<Value>)
+        ensures
+            no_new_writes(old(self).builder, final(self).builder),
+            r is Some && !spec_is_aggregate(*cast_to.0) ==> 0 <= den_bytes(r->0.den@) == tsize(*cast_to.0),
+    { unimplemented!() }
+}
+impl Ty {
+    #[verifier::external_body]
+    pub fn max(&self, other: &Ty) -> (r: Option<Ty>) ensures r == spec_ty_max(*self, *other) { unimplemented!() }
+}
+impl Ty {
+    // `.into()` of a Ty into its interned handle
+    #[verifier::external_body]
+    pub fn intern(self) -> (r: Intern<Ty>) ensures *r.0 == self { unimplemented!() }
+}
+''')
+u.extract(F, 'impl FunctionCompiler<\'_>::fn compile_stmt', key='quick_assign_store',
+          wrap=('impl FunctionCompiler {', '}'),
+          rewrites=[Rewrite('R4', r'self\.tys\[self\.loc\]\[([a-z_.]+)\]', r'self.ty_of(\1)', count=1,
+                            why='typing table lookup -> shim `ty_of` (uninterpreted expr_ty)'),
+                    Rewrite('R4', r'\.expect\("hir_ty would\'ve caught this"\)\s*\.into\(\)', '.unwrap().intern()', count=1,
+                            why='`.expect(msg).into()` -> `.unwrap().intern()`: message dropped (R6), From<Ty> for Intern<Ty> named'),
+                    Rewrite('R4', r'self\.module, &mut self\.builder', '&mut self.module, &mut self.builder', count=1,
+                            why='`self.module` is a `&mut dyn Module` field in the real struct, an owned shim here')],
+          lift=dict(start_at='let res = self.compile_binary(assign_body.dest, assign_body.value, op);',
+                    end_at='dest.write_all(res, *dest_ty, self.module, &mut self.builder);',
+                    sig='fn quick_assign_store(&mut self, assign_body: &AssignBody, dest: MemoryLoc, dest_ty: &Intern<Ty>, op: hir::BinaryOp)',
+                    why='the compound-assignment branch of hir::Stmt::Assign in compile_stmt lifted into a method; assumed path condition: dest is the address of the destination, dest_ty its type'),
+          contract='''
+    requires
+        loc_wf(dest), entry_ok(*dest_ty.0), *dest_ty.0 == expr_ty(assign_body.dest),
+        !spec_is_aggregate(*dest_ty.0),
+        spec_ty_max(expr_ty(assign_body.dest), expr_ty(assign_body.value)) is Some,
+    ensures
+        // the only bytes written are those of the destination
+        frame(old(self).builder, final(self).builder, dest, tsize(*dest_ty.0) as int),
+''')
+
 MUTANTS = [
     # the three C02 defects repaired by "fix:" commits, re-introduced
     (M, 'let discrim = builder.ins().iconst(types::I8, *discriminant as i64);', 'let discrim = builder.ins().iconst(ptr_ty, *discriminant as i64);', 'violation'),
@@ -194,6 +257,7 @@ MUTANTS = [
 
                 MemoryLoc::from_stack(stack_slot, 0)''', 'violation'),
     (M, '                                    .stack_store(bytes, slot, off + self.offset as i32);', '                                    .stack_store(bytes, slot, off);', 'violation'),
+    (F, '                    let res = self.cast(res, max_ty, *dest_ty);\n', '', 'violation'),
     # harmless: swap two independent statements
     (M, '        let discrim = builder.ins().iconst(types::I8, *discriminant as i64);\n        memory.write_val(builder, discrim, enum_layout.discriminant_offset() as i32);',
         '        let tag = builder.ins().iconst(types::I8, *discriminant as i64);\n        memory.write_val(builder, tag, enum_layout.discriminant_offset() as i32);', 'ok'),
